@@ -89,8 +89,9 @@ def check_program(args):
                     cmds.append("stepn %d 2 %d %d" % (q, b1, b2))
                     meta.append(("stepn", ci, q, (b1, b2)))
     nruns = 6 if quick else 30
-    for r in range(nruns):
-        inp = cdrv.random_input(m, rng, maxlen=rng.choice([4, 10, 30]))
+    directed = [list(x) for x in gen.FEATURE_INPUTS.get(name, [])]
+    for r in range(nruns + len(directed)):
+        inp = directed[r] if r < len(directed) else cdrv.random_input(m, rng, maxlen=rng.choice([4, 10, 30]))
         if not inp:
             continue
         cuts = sorted(set(rng.randrange(1, len(inp)) for _ in range(rng.choice([0, 1, 3])))) if len(inp) > 1 else []
